@@ -277,6 +277,10 @@ class PassWorld(World):
                     return b  # `x[..]`: the whole string / slice
                 raise Unsupported("range index")
             i = self.eval(e["index"], env, uses)
+            if isinstance(b, Sink) and isinstance(i, int):
+                if i >= len(b.items):
+                    raise Panic("index %d out of range (len %d)" % (i, len(b.items)))
+                return b.items[i]
             if isinstance(b, tuple) and b and b[0] == "L" and isinstance(i, int):
                 if i >= len(b[1]):
                     raise Panic("index %d out of range (len %d)" % (i, len(b[1])))
@@ -416,6 +420,24 @@ class PassWorld(World):
                     c_ = Sink()
                     c_.items = list(recv.items)
                     return c_
+                if m == "remove" and len(args) == 1 and isinstance(args[0], int):
+                    if args[0] >= len(recv.items):
+                        raise Panic("remove(%d) on a vector of length %d" % (args[0], len(recv.items)))
+                    return recv.items.pop(args[0])
+                if m == "pop" and not args:
+                    return S("Some", recv.items.pop()) if recv.items else NONE
+                if m == "insert" and len(args) == 2 and isinstance(args[0], int):
+                    if args[0] > len(recv.items):
+                        raise Panic("insert(%d) into a vector of length %d" % (args[0], len(recv.items)))
+                    recv.items.insert(args[0], args[1])
+                    return ("T", ())
+                if m in ("first", "last") and not args:
+                    return S("Some", recv.items[0 if m == "first" else -1]) if recv.items else NONE
+                if m == "get" and len(args) == 1 and isinstance(args[0], int):
+                    return S("Some", recv.items[args[0]]) if args[0] < len(recv.items) else NONE
+                if m == "reverse" and not args:
+                    recv.items.reverse()
+                    return ("T", ())
                 if m == "push" and len(args) == 1:
                     recv.items.append(args[0])
                     return ("T", ())
@@ -448,6 +470,8 @@ class PassWorld(World):
                 if m == "len" and not args:
                     return len(recv)
                 raise Unsupported("string method " + m)
+            if isinstance(recv, Sink) and m in ("into_iter", "iter_mut"):
+                return Iter(list(recv.items))
             if (isinstance(recv, Iter) or (isinstance(recv, tuple) and recv and recv[0] == "L")) and m in ("filter_map", "flat_map", "chain", "for_each", "count", "enumerate", "rev", "flatten", "find", "position", "try_for_each", "skip", "take", "zip", "sum", "inspect", "find_map", "max", "min"):
                 it = recv if isinstance(recv, Iter) else Iter(recv[1])
                 args = [self.eval(a, env, uses) for a in e["args"]]
@@ -458,6 +482,8 @@ class PassWorld(World):
                 def seq(x):
                     if isinstance(x, Iter):
                         return x.rest()
+                    if isinstance(x, (Sink, MSet)):
+                        return list(x.items)
                     if isinstance(x, tuple) and x and x[0] == "L":
                         return list(x[1])
                     if x == NONE:
@@ -528,6 +554,8 @@ class PassWorld(World):
                         i += 1
                     return NONE
                 raise Unsupported("iterator method " + m)
+            if isinstance(recv, tuple) and recv and recv[0] == "L" and m in ("to_vec", "to_owned", "clone", "as_slice") and not e["args"]:
+                return recv
             if isinstance(recv, tuple) and recv and recv[0] == "L" and m == "contains" and len(e["args"]) == 1:
                 a = self.eval(e["args"][0], env, uses)
                 if isinstance(a, tuple) and a and a[0] in ("O", "K"):
@@ -579,6 +607,39 @@ class PassWorld(World):
                 for k_ in env:
                     if k_ in env2:
                         env[k_] = env2[k_]
+        if k in ("While", "Loop"):
+            rounds = 0
+            while True:
+                rounds += 1
+                if rounds > 200:
+                    raise Unsupported("loop does not end within 200 rounds in this world")
+                if k == "While":
+                    c = e["cond"]
+                    if c["k"] == "Let":
+                        v = self.eval(c["e"], env, uses)
+                        env2 = dict(env)
+                        if not self.bind(c["pat"], v, env2, uses):
+                            break
+                        bound = {b_["name"] for b_ in walk(c["pat"]) if b_["k"] == "PIdent"}
+                    else:
+                        if not self.truth(self.eval(c, env, uses)):
+                            break
+                        env2, bound = dict(env), set()
+                else:
+                    env2, bound = dict(env), set()
+                stop = False
+                try:
+                    self.eval(e["body"], env2, uses)
+                except ContinueEx:
+                    pass
+                except BreakEx:
+                    stop = True
+                for k_ in env:
+                    if k_ not in bound and k_ in env2:
+                        env[k_] = env2[k_]
+                if stop:
+                    break
+            return ("T", ())
         if k == "For":
             itv = self.eval(e["iter"], env, uses)
             if isinstance(itv, (Sink, MSet_types())):
